@@ -237,6 +237,31 @@ Definition recon_value (S : list N) (lam : N -> list F) (share : N -> list F) : 
 
 End Dkg.
 
+(* ==== stored auxiliary information of a Lindell17 shard (lindell17.auxiliaryInfoDTO) ============
+   The two peer maps (Paillier public keys and encrypted shares of the holders with whom the owner
+   forms a qualified two-party set) are ALWAYS written, also when empty (a holder without such a
+   peer: every holder of an n-of-n with n > 2); a map is present (Some l, possibly Some []) or absent
+   (None).  AuxiliaryInfo.UnmarshalCBOR refuses an absent map and NewAuxiliaryInfo refuses maps with
+   different key sets. *)
+Record aux_dto (A B : Type) : Type := mk_aux_dto { ad_pks : option (list (N * A)); ad_cts : option (list (N * B)) }.
+Arguments mk_aux_dto {A B} _ _. Arguments ad_pks {A B} _. Arguments ad_cts {A B} _.
+
+Fixpoint keys_eqb (a b : list N) : bool :=
+  match a, b with
+  | [], [] => true
+  | x :: a', y :: b' => N.eqb x y && keys_eqb a' b'
+  | _, _ => false
+  end.
+
+Definition aux_encode {A B : Type} (pks : list (N * A)) (cts : list (N * B)) : aux_dto A B :=
+  mk_aux_dto (Some pks) (Some cts).
+
+Definition aux_decode {A B : Type} (d : aux_dto A B) : option (list (N * A) * list (N * B)) :=
+  match ad_pks d, ad_cts d with
+  | Some p, Some c => if keys_eqb (map fst p) (map fst c) then Some (p, c) else None
+  | _, _ => None
+  end.
+
 (* ==== executable instance: Z_q, g = 1, rows read off a labelled matrix ================= *)
 Definition le_bytes (bs : list Z) : Z := fold_right (fun b acc => (b + 256 * acc)%Z) 0%Z bs.
 (* SetRandom/SetBytesWide: the bytes of one read, little endian, reduced mod q *)
